@@ -19,6 +19,7 @@ unw  := <n> ((R|W) <file>)*          the clean-up effects traced after the inter
 c05.ustep <dir> interrupt <obj> <meshOnly> <k> <torn> <plan> <unw>          -> ok <dir after> <GoodUnwind 0|1>
 c05.ustep <dir> rinterrupt <obj> <k> <torn> <plan> <unw>                    -> ok <dir after> <GoodUnwind 0|1> <dir returned by the read had it not been interrupted>
 c05.unwind <nSteps> <k> <unw>                                               -> ok <GoodUnwind 0|1>
+c05.oread <byExistence> <meshOnly> <readNpy> <save> <dir> <obj> <plan>      -> ok <dir after> <dir returned>   (`readOpt`)
 ``` -/
 namespace Femio.C05
 open Femio.Proto
@@ -98,6 +99,13 @@ def handle : List String → Option String
       let ret := (readDirG d src mid).1
       some s!"ok {showDir (ustep d (.readInterrupt src mid k torn unw))} {showBool (GoodUnwind (mid.length + 2) k unw)} {showDir ret}"
     | _ => some "err bad-op"
+  | "c05.oread" :: rest => do
+    let (ex, o, d, src, plan) ← run (do
+      let ex ← bool; let mo ← bool; let rn ← bool; let sv ← bool; let d ← dirP; let x ← objP; let p ← planP x.tag
+      pure (ex, (⟨mo, rn, sv⟩ : ROpt), d, x, p)) rest
+    let mid ← unwrap src.tag plan
+    let r := readOpt ex o d src mid
+    some s!"ok {showDir r.2} {showDir r.1}"
   | "c05.unwind" :: rest => do
     let (n, k, unw) ← run (do let n ← nat; let k ← nat; let u ← planP 0; pure (n, k, u)) rest
     some s!"ok {showBool (GoodUnwind n k unw)}"
